@@ -2,6 +2,7 @@ package c07
 
 import (
 	"bytes"
+	"errors"
 	"fmt"
 	"strings"
 	"testing"
@@ -88,6 +89,13 @@ func configs(thorough bool) []cfgCase {
 		pk.v.C.EMS, pk.v.S.EMS = 2, 2
 		out = append(out, pk)
 	}
+	// a server whose PSK callback fails (unknown identity, backend down) against a peer that uses the empty key:
+	// whatever the server does with the failed lookup, it must not end up keyed from "no key at all"
+	pf := mk("12-psk-gcm-server-lookup-fails", dtls.TLS_PSK_WITH_AES_128_GCM_SHA256, true, 0, false)
+	pf.v.C.PSK = []byte{}
+	pf.v.C.EMS, pf.v.S.EMS = 2, 2
+	pf.v.S.Extra = append(pf.v.S.Extra, dtls.WithPSK(func([]byte) ([]byte, error) { return nil, errors.New("injected: psk backend unavailable") }))
+	out = append(out, pf)
 	out = append(out, res, ca, ri, ra)
 	return out
 }
